@@ -40,14 +40,18 @@ def placements(rng, cls, n):
 
 
 def job(args):
-    opts, items = args      # items: (fen, expect, value)
-    recs = []
+    opts, items = args      # items: (fen, expect, value[, pre]) — pre: a command sent before `position` ("ucinewgame", "setoption name Clear Hash")
+    recs, hist = [], []
     eng = uci.Engine("plain", "material", 1)
     try:
         eng.handshake()
         for k, v in opts.items(): eng.setoption(k, v)
         eng.isready()
-        for fen, expect, val in items:
+        for it in items:
+            fen, expect, val = it[:3]
+            pre = it[3] if len(it) > 3 else ""
+            if pre:
+                eng.send(pre); eng.isready()
             eng.send(f"position fen {fen}"); eng.send("go infinite")
             out, t_end, done = [], time.time() + 12.0, False
             want_mate = expect.startswith("mate")
@@ -62,8 +66,9 @@ def job(args):
             try:
                 out += eng.read_until(lambda l: l.startswith("bestmove"), 60)
             except (uci.EngineDied, TimeoutError) as e:
-                recs.append({"fen": fen, "opts": opts, "error": str(e)[:300]}); return recs
-            recs.append({"fen": fen, "opts": opts, "expect": expect, "value": val, "out": out})
+                recs.append({"fen": fen, "opts": opts, "error": str(e)[:300], "pre": pre, "history": list(hist)}); return recs
+            recs.append({"fen": fen, "opts": opts, "expect": expect, "value": val, "out": out, "pre": pre, "history": list(hist)})
+            hist.append([fen, pre])
         eng.quit()
     finally:
         eng.kill()
@@ -82,10 +87,11 @@ def run(ctx):
     vlib.net_file(bdir, "material", 1)
     if ctx.replay:
         rp = ctx.replay["replay"]
-        recs = job((rp.get("opts", {}), [(rp["fen"], rp.get("expect", "nomate"), rp.get("value", "draw"))]))
-        for x in recs: print(x.get("out", x)[-3:] if "out" in x else x)
+        items = [(f, "nomate", "draw", pre) for f, pre in rp.get("history", [])] + [(rp["fen"], rp.get("expect", "nomate"), rp.get("value", "draw"), rp.get("pre", ""))]
+        recs = job((rp.get("opts", {}), items))
+        for x in recs[-1:]: print(x.get("out", x)[-3:] if "out" in x else x)
         ctx.count(1); ctx.distinct("a"); ctx.distinct("b")
-        audit(ctx, vh, recs)
+        audit(ctx, vh, recs[-1:] if len(recs) == len(items) else [x for x in recs if "error" in x])
         xlate.report(ctx, xr)
         return
     # on-demand probe kernel: model vs Python re-evaluation of the property's wording on a grid
@@ -106,7 +112,7 @@ def run(ctx):
     per = 14 if quick else 250
     hmcs = [0, 0, 30, 60, 80, 90, 95, 98, 99]
     sessions = []
-    optsets = [{}, {"Hash": 8}, {"Threads": 2}, {"Threads": 4, "Hash": 64}, {"Hash": 32, "Threads": 3}]
+    optsets = [{}, {"Hash": 8}, {"Threads": 2}, {"Threads": 4, "Hash": 64}, {"Hash": 32, "Threads": 3}, {"Hash": 128}]
     stats = {"classes": classes, "positions": 0, "won": 0, "lost": 0, "drawn": 0, "mate_outside_50_move_window": 0}
     for ci, cls in enumerate(classes):
         cand = [f"{p} {r.choice(hmcs)} {r.randrange(1, 90)}" for p in placements(r, cls, per * 3)]
@@ -128,7 +134,8 @@ def run(ctx):
             if len(el) >= per: break
         rc, ex, _ = vlib.run_lines(vlib.driver_bin(), [f"tb13 expect {v.split()[0]} {v.split()[1] if ' ' in v else 0} {f.split()[4]}" for f, v in el])
         for (f, v), e in zip(el, ex):
-            items.append((f, e, v))
+            # a third of the roots follow `ucinewgame` / Clear Hash in the same process: the hosted table must be dropped or stay valid
+            items.append((f, e, v, r.choice(["", "", "", "", "ucinewgame", "setoption name Clear Hash"]) if items else ""))
             stats["positions"] += 1; stats["won"] += v.startswith("win"); stats["lost"] += v.startswith("loss"); stats["drawn"] += v == "draw"
             stats["mate_outside_50_move_window"] += (v != "draw" and e == "nomate")
         sessions.append((optsets[ci % len(optsets)], items))
@@ -138,7 +145,7 @@ def run(ctx):
     ctx.cov["class_stats"] = stats
     xlate.report(ctx, xr)
     ctx.cov["rule"] = ("roots = random placements of every 3-man class and of 4-man classes (KQKR always; 2 more in quick, all 20 listed in thorough), both colour assignments and sides to move, "
-                       "half-move clocks {0,30,60,80,90,95,98,99}; x {Hash 8..64, Threads 1..4}; `go infinite` until an exact mate score / depth 9 / 12 s, then `stop`; audited: final score vs expectedMate "
+                       "half-move clocks {0,30,60,80,90,95,98,99}; x {Hash 8..128, Threads 1..4}; a third of the roots preceded by `ucinewgame` / Clear Hash in the same process; `go infinite` until an exact mate score / depth 9 / 12 s, then `stop`; audited: final score vs expectedMate "
                        "(Lean), best move keeps a shortest mate / does not lose a draw (DTM oracle); distinct = distinct roots")
     if not quick:
         vlib.leanchecker(ctx, ["TexelVerif.Props.C13"])
@@ -148,7 +155,7 @@ def audit(ctx, vh, recs):
     q1, meta, late = [], [], []
     for rec in recs:
         if "error" in rec:
-            ctx.violation(f"engine failed on `{rec['fen']}`: {rec['error']}", {"kind": "engine-failure", "fen": rec["fen"], "opts": rec["opts"]}); continue
+            ctx.violation(f"engine failed on `{rec['fen']}`: {rec['error']}", {"kind": "engine-failure", "fen": rec["fen"], "opts": rec["opts"], "pre": rec.get("pre", ""), "history": rec.get("history", [])}); continue
         ctx.count(); ctx.distinct(rec["fen"])
         last = None
         for l in rec["out"]:
@@ -157,7 +164,7 @@ def audit(ctx, vh, recs):
                 if "bound" not in d: last = d
         bm = uci.parse_bestmove(rec["out"][-1])
         base = {"kind": "property-predicate", "fen": rec["fen"], "opts": rec["opts"], "expect": rec["expect"], "value": rec["value"],
-                "final": last["raw"] if last else None, "bestmove": bm["best"]}
+                "final": last["raw"] if last else None, "bestmove": bm["best"], "pre": rec.get("pre", ""), "history": rec.get("history", [])}
         if last is None:
             if rec["value"].startswith("loss 0") or bm["best"] == "0000": continue
             ctx.violation(f"no exact score reported for `{rec['fen']}`", base); continue
